@@ -121,14 +121,16 @@ pub fn piece_at(hb: &[u8], p: &str, a: usize, b: usize) -> bool {
 
 /// the delimiter occurs at two overlapping positions of `h`
 pub fn overlapping_occurrences(h: &[u8], d: &[u8]) -> bool {
+    let mut occ = [false; MAXP];
     let mut i = 0;
-    while i < h.len() {
-        let mut j = 1;
-        while j < d.len() {
-            if ref_occurs_at(h, d, i) && ref_occurs_at(h, d, i + j) {
-                return true;
-            }
-            j += 1;
+    while i < h.len() && i < MAXP {
+        occ[i] = ref_occurs_at(h, d, i);
+        i += 1;
+    }
+    let mut i = 0;
+    while i + 1 < MAXP {
+        if occ[i] && ((d.len() >= 2 && occ[i + 1]) || (d.len() >= 3 && i + 2 < MAXP && occ[i + 2])) {
+            return true;
         }
         i += 1;
     }
@@ -320,6 +322,7 @@ fn body_char<S: Src, const H: usize>(s: &mut S, w: Which) -> Facts {
 harness! {
     /// kind=bounded tier=quick bound="valid UTF-8 string<=4 bytes, &str delimiter<=2 bytes (empty included), iteration to exhaustion (<=6 pieces)"
     #[kani::unwind(9)]
+    #[kani::stub(konst_kernel::string::non_char_boundary_panic, crate::hlib::stub_non_char_boundary_panic)]
     fn c06_split_str(s) {
         let f = body_str::<_, 4, 2>(s, Which::Split);
         cov!(s, f.dl == 0 && f.hl == 4 && f.n == 4 && f.multibyte && f.steps == 4, "C06.cover.split_empty_delim_multibyte");
@@ -333,6 +336,7 @@ harness! {
 harness! {
     /// kind=bounded tier=quick bound="valid UTF-8 string<=4 bytes, &str delimiter<=2 bytes (empty included), iteration to exhaustion (<=6 pieces)"
     #[kani::unwind(9)]
+    #[kani::stub(konst_kernel::string::non_char_boundary_panic, crate::hlib::stub_non_char_boundary_panic)]
     fn c06_rsplit_str(s) {
         let f = body_str::<_, 4, 2>(s, Which::RSplit);
         cov!(s, f.dl == 0 && f.hl == 4 && f.n == 4 && f.multibyte && f.steps == 4, "C06.cover.rsplit_empty_delim_multibyte");
@@ -345,6 +349,7 @@ harness! {
 harness! {
     /// kind=bounded tier=quick bound="valid UTF-8 string<=4 bytes, &str delimiter<=2 bytes (empty included), iteration to exhaustion (<=5 pieces)"
     #[kani::unwind(9)]
+    #[kani::stub(konst_kernel::string::non_char_boundary_panic, crate::hlib::stub_non_char_boundary_panic)]
     fn c06_split_terminator_str(s) {
         let f = body_str::<_, 4, 2>(s, Which::SplitTerminator);
         cov!(s, f.dl == 0 && f.hl == 4 && f.multibyte && f.steps == f.n - 1, "C06.cover.split_terminator_empty_delim");
@@ -358,6 +363,7 @@ harness! {
 harness! {
     /// kind=bounded tier=quick bound="valid UTF-8 string<=4 bytes, &str delimiter<=2 bytes (empty included), iteration to exhaustion (<=5 pieces)"
     #[kani::unwind(9)]
+    #[kani::stub(konst_kernel::string::non_char_boundary_panic, crate::hlib::stub_non_char_boundary_panic)]
     fn c06_rsplit_terminator_str(s) {
         let f = body_str::<_, 4, 2>(s, Which::RSplitTerminator);
         cov!(s, f.dl == 0 && f.hl == 4 && f.multibyte && f.steps == f.n - 1, "C06.cover.rsplit_terminator_empty_delim");
@@ -370,6 +376,7 @@ harness! {
 harness! {
     /// kind=bounded tier=quick bound="valid UTF-8 string<=4 bytes, &str delimiter<=2 bytes (empty included); rev() and one next_back() of split, then iteration to exhaustion"
     #[kani::unwind(9)]
+    #[kani::stub(konst_kernel::string::non_char_boundary_panic, crate::hlib::stub_non_char_boundary_panic)]
     fn c06_split_rev_str(s) {
         let f = body_str::<_, 4, 2>(s, Which::SplitRev);
         cov!(s, f.dl == 1 && f.n == 3 && f.steps == 3 && f.multibyte, "C06.cover.split_rev_three_pieces");
@@ -380,6 +387,7 @@ harness! {
 harness! {
     /// kind=bounded tier=quick bound="valid UTF-8 string<=4 bytes, &str delimiter<=2 bytes (empty included); rev() and one next_back() of rsplit, then iteration to exhaustion"
     #[kani::unwind(9)]
+    #[kani::stub(konst_kernel::string::non_char_boundary_panic, crate::hlib::stub_non_char_boundary_panic)]
     fn c06_rsplit_rev_str(s) {
         let f = body_str::<_, 4, 2>(s, Which::RSplitRev);
         cov!(s, f.dl == 1 && f.n == 3 && f.steps == 3 && f.multibyte, "C06.cover.rsplit_rev_three_pieces");
@@ -393,6 +401,7 @@ harness! {
 harness! {
     /// kind=bounded tier=quick bound="valid UTF-8 string<=5 bytes, char delimiter (any char), iteration to exhaustion (<=6 pieces)"
     #[kani::unwind(10)]
+    #[kani::stub(konst_kernel::string::non_char_boundary_panic, crate::hlib::stub_non_char_boundary_panic)]
     fn c06_split_char(s) {
         let f = body_char::<_, 5>(s, Which::Split);
         cov!(s, f.dl == 2 && f.n == 3 && f.steps == 3 && f.hl == 5, "C06.cover.split_char2_three_pieces");
@@ -404,6 +413,7 @@ harness! {
 harness! {
     /// kind=bounded tier=quick bound="valid UTF-8 string<=5 bytes, char delimiter (any char), iteration to exhaustion (<=6 pieces)"
     #[kani::unwind(10)]
+    #[kani::stub(konst_kernel::string::non_char_boundary_panic, crate::hlib::stub_non_char_boundary_panic)]
     fn c06_rsplit_char(s) {
         let f = body_char::<_, 5>(s, Which::RSplit);
         cov!(s, f.dl == 2 && f.n == 3 && f.steps == 3 && f.hl == 5, "C06.cover.rsplit_char2_three_pieces");
@@ -414,6 +424,7 @@ harness! {
 harness! {
     /// kind=bounded tier=quick bound="valid UTF-8 string<=5 bytes, char delimiter (any char), iteration to exhaustion (<=5 pieces)"
     #[kani::unwind(10)]
+    #[kani::stub(konst_kernel::string::non_char_boundary_panic, crate::hlib::stub_non_char_boundary_panic)]
     fn c06_split_terminator_char(s) {
         let f = body_char::<_, 5>(s, Which::SplitTerminator);
         cov!(s, f.dl == 2 && f.trailing && f.n == 3 && f.steps == 2 && f.hl == 5, "C06.cover.split_terminator_char_drops_trailing_empty");
@@ -424,6 +435,7 @@ harness! {
 harness! {
     /// kind=bounded tier=quick bound="valid UTF-8 string<=5 bytes, char delimiter (any char), iteration to exhaustion (<=5 pieces)"
     #[kani::unwind(10)]
+    #[kani::stub(konst_kernel::string::non_char_boundary_panic, crate::hlib::stub_non_char_boundary_panic)]
     fn c06_rsplit_terminator_char(s) {
         let f = body_char::<_, 5>(s, Which::RSplitTerminator);
         cov!(s, f.dl == 2 && f.leading && f.n == 3 && f.steps == 2 && f.hl == 5, "C06.cover.rsplit_terminator_char_drops_leading_empty");
@@ -434,6 +446,7 @@ harness! {
 harness! {
     /// kind=bounded tier=quick bound="valid UTF-8 string<=4 bytes, char delimiter (any char); rev()/next_back() of split and of rsplit, then iteration to exhaustion"
     #[kani::unwind(9)]
+    #[kani::stub(konst_kernel::string::non_char_boundary_panic, crate::hlib::stub_non_char_boundary_panic)]
     fn c06_rev_char(s) {
         let fwd = s.bool();
         let f = body_char::<_, 4>(s, if fwd { Which::SplitRev } else { Which::RSplitRev });
@@ -449,6 +462,7 @@ harness! {
 harness! {
     /// kind=bounded tier=quick bound="valid UTF-8 string<=4 bytes, &str delimiter of exactly 3 bytes, split and rsplit to exhaustion"
     #[kani::unwind(9)]
+    #[kani::stub(konst_kernel::string::non_char_boundary_panic, crate::hlib::stub_non_char_boundary_panic)]
     fn c06_split_str_delim3(s) {
         let hs = BStr::<4>::any(s);
         let ds = BStr::<3>::any(s);
@@ -469,6 +483,7 @@ macro_rules! c06_big {
         harness! {
             /// kind=bounded tier=thorough bound="valid UTF-8 string<=5 bytes, &str delimiter<=3 bytes (empty included), iteration to exhaustion (<=7 pieces)"
             #[kani::unwind(10)]
+            #[kani::stub(konst_kernel::string::non_char_boundary_panic, crate::hlib::stub_non_char_boundary_panic)]
             fn $name(s) {
                 let f = body_str::<_, 5, 3>(s, $w);
                 cov!(s, f.dl == 3 && f.hl == 5 && f.n == 2, "C06.cover.big_delim3");
@@ -489,6 +504,7 @@ c06_big! {c06_rsplit_terminator_str_big, Which::RSplitTerminator}
 harness! {
     /// kind=bounded tier=thorough bound="spec adequacy: ref_split_seq/ref_rsplit_seq/term_count vs str::split/rsplit/split_terminator with char delimiters, string<=5 bytes"
     #[kani::unwind(10)]
+    #[kani::stub(konst_kernel::string::non_char_boundary_panic, crate::hlib::stub_non_char_boundary_panic)]
     fn c06_spec_vs_std_char(s) {
         let hs = BStr::<5>::any(s);
         let c = s.char();
@@ -524,6 +540,7 @@ harness! {
 harness! {
     /// kind=bounded tier=thorough bound="spec adequacy: the empty-delimiter branch of ref_split_seq/ref_rsplit_seq/term_count vs str::split(\"\")/rsplit(\"\")/split_terminator(\"\"), string<=4 bytes"
     #[kani::unwind(9)]
+    #[kani::stub(konst_kernel::string::non_char_boundary_panic, crate::hlib::stub_non_char_boundary_panic)]
     fn c06_spec_vs_std_empty(s) {
         let hs = BStr::<4>::any(s);
         let h = hs.as_str();
@@ -556,6 +573,7 @@ harness! {
 harness! {
     /// kind=bounded tier=quick bound="x"
     #[kani::unwind(8)]
+    #[kani::stub(konst_kernel::string::non_char_boundary_panic, crate::hlib::stub_non_char_boundary_panic)]
     fn c06_x1(s) {
         let f = body_char::<_, 3>(s, Which::Split);
         cov!(s, f.n == 3, "C06.cover.x1");
@@ -564,6 +582,7 @@ harness! {
 harness! {
     /// kind=bounded tier=quick bound="x"
     #[kani::unwind(8)]
+    #[kani::stub(konst_kernel::string::non_char_boundary_panic, crate::hlib::stub_non_char_boundary_panic)]
     fn c06_x2(s) {
         let f = body_str::<_, 3, 1>(s, Which::Split);
         cov!(s, f.n == 3, "C06.cover.x2");
@@ -572,6 +591,7 @@ harness! {
 harness! {
     /// kind=bounded tier=quick bound="x"
     #[kani::unwind(8)]
+    #[kani::stub(konst_kernel::string::non_char_boundary_panic, crate::hlib::stub_non_char_boundary_panic)]
     fn c06_x3(s) {
         let f = body_str::<_, 3, 2>(s, Which::Split);
         cov!(s, f.n == 3, "C06.cover.x3");
@@ -580,6 +600,7 @@ harness! {
 harness! {
     /// kind=bounded tier=quick bound="x"
     #[kani::unwind(8)]
+    #[kani::stub(konst_kernel::string::non_char_boundary_panic, crate::hlib::stub_non_char_boundary_panic)]
     fn c06_x4(s) {
         let f = body_str::<_, 3, 2>(s, Which::SplitTerminator);
         cov!(s, f.n == 3, "C06.cover.x4");
